@@ -1137,6 +1137,308 @@ TRANSLATED = [
 FALLBACK = None
 
 
+# ------------------------------------------------------------------------------------------------------------------
+# round 6: `other_face_side` (a chain of `if ..: return ..`) and `_sort_edge_neighborhoods` (two `while True` walks)
+# ------------------------------------------------------------------------------------------------------------------
+W_HEADER = "import Mouette.Generated.C03S\n"
+
+
+def return_chain(unit, ctx, fn, lean):
+    """`if c: return X` ... `a, b = L` ... `return Y`  ->  nested if-then-else returning `Option Nat` (`None` -> `none`)"""
+    params = [a.arg for a in fn.args.args][1:]
+    if fn.args.vararg or fn.args.kwarg or fn.args.defaults: raise TranslateError(f"{fn.name}: signature")
+    f = Fn(unit, ctx, fn, lean)
+    env = {}
+    for pname in params:
+        env[pname] = (f.fresh(), "nat")
+
+    def ret(v):
+        if v is None or (isinstance(v, ast.Constant) and v.value is None): return "none"
+        e, t = f.cx_atom(v, env)
+        if t != "nat": raise TranslateError(f"{fn.name}: returns a {t}")
+        return f"some {e}"
+
+    def go(stmts, ind):
+        if not stmts: return [f"{ind}none"]
+        st, rest = stmts[0], stmts[1:]
+        if isinstance(st, ast.Return): return [f"{ind}{ret(st.value)}"]
+        if isinstance(st, ast.If) and not st.orelse and len(st.body) == 1 and isinstance(st.body[0], ast.Return):
+            c, tc = f.cx(st.test, env)
+            if tc.rstrip("*") != "bool": raise TranslateError(f"{fn.name}: condition type")
+            if not c.startswith("("): c = f"({c})"
+            return [f"{ind}if {c} then {ret(st.body[0].value)} else"] + go(rest, ind)
+        if isinstance(st, ast.Assign):
+            lines = [x for x in f.stmt(st, env, ind, {}) if x != "NOOP"]
+            if any("let s :=" in x for x in lines): raise TranslateError(f"{fn.name}: stores state")
+            return lines + go(rest, ind)
+        raise TranslateError(f"{fn.name}: unsupported statement {ast.unparse(st)[:60]}")
+    lines = go(_body(fn), "  ")
+    ps = " ".join(env[p][0] for p in params)
+    unit.text.append(f"/-- `{fn.name}`: its chain of `if ..: return ..` (`None` is `none`) -/\n"
+                     f"def {lean} (m : Mesh) ({ps} : Nat) : Option Nat :=\n" + "\n".join(lines) + "\n")
+    return {"params": len(params), "lines": len(lines)}
+
+
+class WFn:
+    """`_sort_edge_neighborhoods`: guard, loop over the edges; per edge: straight-line segments and `while True` loops with `break`.
+    Every local assigned in the body of the edge loop outside the `while`s is a field of the state (it is carried through the
+    loops); locals first assigned inside a `while` are `let`s of one iteration."""
+
+    def __init__(self, fn):
+        self.fn = fn
+        self.fields = []       # (python name, lean type)
+        self.n = 0
+
+    def err(self, msg): return TranslateError(f"{self.fn.name}: {msg}")
+
+    def fresh(self):
+        self.n += 1
+        return f"x{self.n - 1}"
+
+    def ftype(self, name):
+        for f, t in self.fields:
+            if f == name: return t
+        return None
+
+    # ---- expressions: -> (text, type) with types nat int list optnat bool
+    def cx(self, n, env):
+        if isinstance(n, ast.Constant) and isinstance(n.value, int) and not isinstance(n.value, bool) and n.value >= 0:
+            return str(n.value), "num"
+        if isinstance(n, ast.Name):
+            if n.id in env: return env[n.id]
+            t = self.ftype(n.id)
+            if t: return f"s.{n.id}", {"Nat": "nat", "Int": "int", "IMap": "imap"}[t]
+            raise self.err(f"unbound name {n.id}")
+        if isinstance(n, (ast.Tuple, ast.List)):
+            parts = [self.cx(e, env) for e in n.elts]
+            if all(t == "nat" for _, t in parts): return "[" + ", ".join(e for e, _ in parts) + "]", "list"
+            raise self.err("tuple of non-ints")
+        if isinstance(n, ast.Subscript):
+            v, sl = n.value, n.slice
+            # self._adjE2C[e][0]
+            if isinstance(v, ast.Subscript) and isinstance(v.value, ast.Attribute) and resolve("conn", v.value) in (("own", "_adjE2C"), ("own", "_adjE2F")) \
+                    and isinstance(sl, ast.Constant) and sl.value == 0:
+                k, tk = self.cx(v.slice, env)
+                if tk != "nat": raise self.err("edge key type")
+                return f"(dGet s.{resolve('conn', v.value)[1].lstrip('_')} {k}).getD 0 0", "nat"
+            if isinstance(v, ast.Attribute) and resolve("conn", v) == ("mesh", "cells"):
+                i, ti = self.cx(sl, env)
+                if ti != "nat": raise self.err("cell index type")
+                return f"(m.cell {i})", "list"
+            # [x for x in L if x not in T][0]
+            if isinstance(v, ast.ListComp) and isinstance(sl, ast.Constant) and sl.value == 0:
+                L, T_ = self._filter_parts(v, env)
+                return f"firstNotInD {L} {T_}", "nat"
+        if isinstance(n, ast.GeneratorExp):
+            L, T_ = self._filter_parts(n, env)
+            return f"{L}.filter (fun x => !({T_}.contains x))", "list"
+        if isinstance(n, ast.Call) and isinstance(n.func, ast.Attribute) and not n.keywords:
+            r = resolve("conn", n.func)
+            args = [self.cx(a, env) for a in n.args]
+            if r == ("conn", "face_id") and len(args) == 3 and all(t == "nat" for _, t in args):
+                return "m.faceIdD [" + ", ".join(e for e, _ in args) + "]", "nat"
+            if r == ("conn", "other_face_side") and len(args) == 2 and all(t == "nat" for _, t in args):
+                return f"other_face_side m {args[0][0]} {args[1][0]}", "optnat"
+        if isinstance(n, ast.Compare) and len(n.ops) == 1:
+            a, b, op = n.left, n.comparators[0], n.ops[0]
+            if isinstance(op, ast.Is) and isinstance(b, ast.Constant) and b.value is None:
+                e, t = self.cx(a, env)
+                if t != "optnat": raise self.err("`is None` on a non-optional")
+                return f"{e}.isNone", "bool"
+            if isinstance(op, ast.In):
+                e, t = self.cx(a, env); d, td = self.cx(b, env)
+                if td != "imap" or t not in ("optnat", "nat"): raise self.err("membership types")
+                return f"iHas {d} ({e}.getD 0)" if t == "optnat" else f"iHas {d} {e}", "bool"
+        if isinstance(n, ast.BoolOp) and isinstance(n.op, ast.Or):
+            parts = [self.cx(v, env) for v in n.values]
+            if any(t != "bool" for _, t in parts): raise self.err("or of non-booleans")
+            return "(" + " || ".join(e for e, _ in parts) + ")", "bool"
+        raise self.err(f"unsupported expression {ast.unparse(n)[:70]}")
+
+    def _filter_parts(self, comp, env):
+        if len(comp.generators) != 1: raise self.err("comprehension shape")
+        g = comp.generators[0]
+        ok = isinstance(g.target, ast.Name) and isinstance(comp.elt, ast.Name) and comp.elt.id == g.target.id and len(g.ifs) == 1 \
+            and isinstance(g.ifs[0], ast.Compare) and len(g.ifs[0].ops) == 1 and isinstance(g.ifs[0].ops[0], ast.NotIn) \
+            and isinstance(g.ifs[0].left, ast.Name) and g.ifs[0].left.id == g.target.id
+        if not ok: raise self.err(f"comprehension is not `x for x in L if x not in T`: {ast.unparse(comp)[:60]}")
+        L, tL = self.cx(g.iter, env); T_, tT = self.cx(g.ifs[0].comparators[0], env)
+        if tL != "list" or tT != "list": raise self.err("comprehension types")
+        return L, T_
+
+    # ---- statements of one block (segment or while body): -> lines, given the names that are fields
+    def stmts(self, body, env, ind, in_while):
+        out = []
+        body = list(body)
+        while body:
+            st = body.pop(0)
+            if st == "RESET":
+                out.append(f"{ind}let s := {{ s with brk := false }}"); continue
+            if isinstance(st, ast.Assign) and len(st.targets) == 1 and isinstance(st.value, ast.BinOp) and isinstance(st.targets[0], ast.Name) \
+                    and isinstance(st.value.op, (ast.Add, ast.Sub)) and ast.unparse(st.value.left) == st.targets[0].id:
+                st = ast.AugAssign(st.targets[0], st.value.op, st.value.right)          # k = k + 1  ->  k += 1
+            if isinstance(st, ast.AugAssign) and isinstance(st.target, ast.Name) and isinstance(st.op, (ast.Add, ast.Sub)) \
+                    and isinstance(st.value, ast.Constant) and isinstance(st.value.value, int) and self.ftype(st.target.id) == "Int":
+                op = "+" if isinstance(st.op, ast.Add) else "-"
+                out.append(f"{ind}let s := {{ s with {st.target.id} := s.{st.target.id} {op} {st.value.value} }}")
+                continue
+            if isinstance(st, ast.Assign) and len(st.targets) == 1:
+                t, v = st.targets[0], st.value
+                if isinstance(t, ast.Name):
+                    if isinstance(v, ast.Call) and isinstance(v.func, ast.Name) and v.func.id == "dict" and not v.args and not v.keywords \
+                            or (isinstance(v, ast.Dict) and not v.keys):
+                        self._field(t.id, "IMap", in_while)
+                        out.append(f"{ind}let s := {{ s with {t.id} := [] }}"); continue
+                    e, ty = self.cx(v, env)
+                    if self.ftype(t.id) is None and in_while:
+                        x = self.fresh(); env[t.id] = (x, ty)
+                        out.append(f"{ind}let {x} := {e}"); continue
+                    want = "Int" if ty == "num" else "Nat" if ty == "nat" else None
+                    if ty == "optnat" and self.ftype(t.id) == "Nat" and in_while:
+                        raise self.err(f"{t.id}: an optional value stored in an int local")
+                    if want is None: raise self.err(f"local {t.id} of type {ty}")
+                    if self.ftype(t.id) == "Nat" and ty == "num": want = "Nat"
+                    self._field(t.id, want, in_while)
+                    out.append(f"{ind}let s := {{ s with {t.id} := {e} }}"); continue
+                if isinstance(t, ast.Subscript) and isinstance(t.value, ast.Name) and self.ftype(t.value.id) == "IMap":
+                    k, tk = self.cx(t.slice, env); val, tv = self.cx(v, env)
+                    if tk != "nat" or tv != "int": raise self.err(f"key store types {tk},{tv}")
+                    out.append(f"{ind}let s := {{ s with {t.value.id} := iSet s.{t.value.id} {k} {val} }}"); continue
+                if isinstance(t, ast.Tuple) and all(isinstance(e, ast.Name) for e in t.elts) and isinstance(v, ast.GeneratorExp):
+                    e, ty = self.cx(v, env)
+                    x = self.fresh()
+                    out.append(f"{ind}let {x} := {e}")
+                    for i, name in enumerate(t.elts):
+                        self._field(name.id, "Nat", in_while)
+                        out.append(f"{ind}let s := {{ s with {name.id} := unpack {x} {i} }}")
+                    continue
+            if isinstance(st, ast.If) and not st.orelse and len(st.body) == 1 and isinstance(st.body[0], ast.Break) and in_while:
+                c, tc = self.cx(st.test, env)
+                if tc != "bool": raise self.err("break condition type")
+                out.append(f"{ind}if {c} then {{ s with brk := true }} else")
+                # past the `is None` test an optional local is read as an int
+                for name, (e, ty) in list(env.items()):
+                    if ty == "optnat" and f"{e}.isNone" in c:
+                        x = self.fresh(); env[name] = (x, "nat")
+                        out.append(f"{ind}let {x} := {e}.getD 0")
+                continue
+            # self._adjE2C[e].sort(key = lambda c: keys_cell.get(c, float("inf")))
+            if isinstance(st, ast.Expr) and isinstance(st.value, ast.Call) and isinstance(st.value.func, ast.Attribute) and st.value.func.attr == "sort" \
+                    and not in_while:
+                c = st.value
+                recv = c.func.value
+                ok = isinstance(recv, ast.Subscript) and isinstance(recv.value, ast.Attribute) and resolve("conn", recv.value) in (("own", "_adjE2C"), ("own", "_adjE2F")) \
+                    and not c.args and len(c.keywords) == 1 and c.keywords[0].arg == "key" and isinstance(c.keywords[0].value, ast.Lambda)
+                if ok:
+                    lam = c.keywords[0].value
+                    a = lam.args.args
+                    b = lam.body
+                    ok = len(a) == 1 and isinstance(b, ast.Call) and isinstance(b.func, ast.Attribute) and b.func.attr == "get" and isinstance(b.func.value, ast.Name) \
+                        and self.ftype(b.func.value.id) == "IMap" and len(b.args) == 2 and isinstance(b.args[0], ast.Name) and b.args[0].id == a[0].arg \
+                        and ast.unparse(b.args[1]) in ("float('inf')", 'float("inf")', "math.inf", "np.inf")
+                if not ok: raise self.err(f"sort call not recognised: {ast.unparse(st)[:80]}")
+                fld = resolve("conn", recv.value)[1].lstrip("_")
+                k, tk = self.cx(recv.slice, env)
+                out.append(f"{ind}let s := {{ s with {fld} := dSortBy s.{fld} {k} s.{b.func.value.id} }}"); continue
+            raise self.err(f"unsupported statement {ast.unparse(st)[:80]}")
+        return out
+
+    def _field(self, name, ty, in_while):
+        t = self.ftype(name)
+        if t is None:
+            if in_while: raise self.err(f"{name} is first assigned inside a loop but used as loop state")
+            self.fields.append((name, ty))
+        elif t != ty:
+            raise self.err(f"{name} holds a {t} and then a {ty}")
+
+
+def site_walks():
+    tree, _ = T.load(VOL)
+    u = Unit()
+    u.funcs[("conn", "face_to_cells")] = {"lean": "C03S.face_to_cells", "ret": "list", "params": 1}
+    C = "VolumeMesh._Connectivity."
+    d = {"other_face_side": return_chain(u, "conn", _get(tree, C + "other_face_side"), "other_face_side")}
+    fn = _get(tree, C + "_sort_edge_neighborhoods")
+    body = _body(fn)
+    if len(body) != 2: raise TranslateError(f"_sort_edge_neighborhoods: {len(body)} top-level statements, 2 expected (guard, loop over the edges)")
+    g, loop = body
+    if not (isinstance(g, ast.If) and not g.orelse and len(g.body) == 1 and isinstance(g.body[0], ast.Return) and g.body[0].value is None
+            and ast.unparse(g.test) == "not self.mesh.is_tetrahedral()"):
+        raise TranslateError("_sort_edge_neighborhoods: guard `if not self.mesh.is_tetrahedral(): return` not found")
+    ok = isinstance(loop, ast.For) and not loop.orelse and ast.unparse(loop.iter) == "enumerate(self.mesh.edges)" and isinstance(loop.target, ast.Tuple) \
+        and len(loop.target.elts) == 2 and isinstance(loop.target.elts[0], ast.Name) and isinstance(loop.target.elts[1], ast.Tuple) \
+        and len(loop.target.elts[1].elts) == 2 and all(isinstance(e, ast.Name) for e in loop.target.elts[1].elts)
+    if not ok: raise TranslateError("_sort_edge_neighborhoods: loop `for e, (A, B) in enumerate(self.mesh.edges)` not found")
+    w = WFn(fn)
+    names = [loop.target.elts[0].id] + [e.id for e in loop.target.elts[1].elts]
+    base_env = {nm: (w.fresh(), "nat") for nm in names}
+    S = "SortEdgeNeighborhoodsSt"
+    sig = f"(m : Mesh) (x0 x1 x2 : Nat) (s : {S}) : {S}"
+    defs, edge_lines, seg, nseg, nwhile = [], [], [], 0, 0
+
+    def flush():
+        nonlocal seg, nseg
+        if not seg: return
+        nseg += 1
+        lines = w.stmts(seg, dict(base_env), "  ", False)
+        defs.append((f"sort_edge_neighborhoods_seg{nseg}", lines, None))
+        edge_lines.append(f"  let s := sort_edge_neighborhoods_seg{nseg} m x0 x1 x2 s")
+        seg = []
+    stmts_ = _strip(loop.body)
+    for i, st in enumerate(stmts_):
+        if isinstance(st, ast.While):
+            if not (isinstance(st.test, ast.Constant) and st.test.value is True) or st.orelse: raise TranslateError("_sort_edge_neighborhoods: loop is not `while True`")
+            seg.append("RESET")
+            flush()
+            nwhile += 1
+            lines = w.stmts(_strip(st.body), dict(base_env), "  ", True)
+            defs.append((f"sort_edge_neighborhoods_while{nwhile}", lines, "while"))
+            edge_lines.append(f"  let s := whileTrue (·.brk) (sort_edge_neighborhoods_while{nwhile} m x0 x1 x2) (m.nC + 1) s")
+        else:
+            seg.append(st)
+    flush()
+    if nwhile != 2: raise TranslateError(f"_sort_edge_neighborhoods: {nwhile} `while True` walks found, 2 expected")
+    flds = "".join(f"  {n} : {t}\n" for n, t in w.fields)
+    zero = {"IMap": "[]", "Int": "0", "Nat": "0"}
+    txt = (f"/-- state of `_sort_edge_neighborhoods`: the two dictionaries it re-orders, the locals carried through the walks, the `break` flag -/\n"
+           f"structure {S} where\n  adjE2C : Dict\n  adjE2F : Dict\n{flds}  brk : Bool\n  outside : Bool\n\n")
+    for name, lines, kind in defs:
+        doc = "one iteration of a `while True` walk (`break` raises `brk`)" if kind else "straight-line statements of the edge loop"
+        txt += f"/-- `_sort_edge_neighborhoods`: {doc} -/\ndef {name} {sig} :=\n" + "\n".join(lines) + "\n  s\n\n"
+    txt += (f"/-- `_sort_edge_neighborhoods`: the body of `for e, (A, B) in enumerate(self.mesh.edges)` -/\n"
+            f"def sort_edge_neighborhoods_edge {sig} :=\n" + "\n".join(edge_lines) + "\n  s\n\n")
+    init = ", ".join(f"{n} := {zero[t]}" for n, t in w.fields)
+    txt += (f"/-- `_sort_edge_neighborhoods`, on the dictionaries left by `_compute_edge_id` -/\n"
+            f"def sort_edge_neighborhoods (m : Mesh) : {S} :=\n"
+            f"  let s : {S} := {{ adjE2C := (C03S.compute_edge_id m).adjE2C, adjE2F := (C03S.compute_edge_id m).adjE2F, {init}, brk := false, outside := false }}\n"
+            f"  if (!m.isTetrahedral) then s else\n"
+            f"  let s := (List.range m.nE).foldl (fun s x0 =>\n    let x1 := unpack (m.edge x0) 0\n    let x2 := unpack (m.edge x0) 1\n"
+            f"    sort_edge_neighborhoods_edge m x0 x1 x2 s) s\n  s\n")
+    u.text.append(txt)
+    # edge_to_face / edge_to_cell: guarded reads of what `_compute_edge_id` leaves, i.e. after its tail
+    # `if config.sort_neighborhoods: self._sort_edge_neighborhoods()` (the tail is checked to be exactly that)
+    _edge_id_body(_get(tree, C + "_compute_edge_id"), Unit())
+    for acc, attr in (("edge_to_face", "_adjE2F"), ("edge_to_cell", "_adjE2C")):
+        afn = _get(tree, C + acc)
+        ab = _body(afn)
+        ps = [a.arg for a in afn.args.args][1:]
+        g = _guard(ab[0], "conn") if len(ab) == 2 else None
+        r = ab[1] if len(ab) == 2 else None
+        ok = g == (attr, "_compute_edge_id") and len(ps) == 1 and isinstance(r, ast.Return) and isinstance(r.value, ast.Subscript) \
+            and resolve("conn", r.value.value) == ("own", attr) and isinstance(r.value.slice, ast.Name) and r.value.slice.id == ps[0]
+        if not ok: raise TranslateError(f"{acc}: not `if self.{attr} is None: self._compute_edge_id()` + `return self.{attr}[e]`")
+        fld = attr.lstrip("_")
+        u.text.append(f"/-- `{acc}(e)`: guarded read of `{attr}[e]` as `_compute_edge_id` leaves it — its tail runs `_sort_edge_neighborhoods` when "
+                      f"`config.sort_neighborhoods` is set -/\n"
+                      f"def {acc} (m : Mesh) (sort_neighborhoods : Bool) (x0 : Nat) : List Nat :=\n"
+                      f"  if sort_neighborhoods then dGet (sort_edge_neighborhoods m).{fld} x0 else dGet (C03S.compute_edge_id m).{fld} x0\n")
+        d[acc] = {"reads": attr, "compute": "_compute_edge_id + tail"}
+    out = "namespace Mouette.Generated.C03W\nopen Mouette.Vol Mouette.VolS Mouette.Generated\n\n" + "\n".join(u.text) + "\nend Mouette.Generated.C03W\n"
+    _, sha = T.write_generated("C03W", out, header=W_HEADER)
+    d["_sort_edge_neighborhoods"] = {"fields": [f"{n}:{t}" for n, t in w.fields], "segments": nseg, "walks": nwhile}
+    return {"sha": sha, "functions": d}
+
+
 def _stub(name, ns, header, why):
     """a site that raises must not leave the definitions of an EARLIER tree on disk: the stub makes the bridges fail to build"""
     T.write_generated(name, f"namespace {ns}\n-- SITE NOT RECOGNISED in the current tree: {why[:300]!r}\nend {ns}\n", header=header)
@@ -1144,6 +1446,8 @@ def _stub(name, ns, header, why):
 
 TRANSLATED_R5 = ["VolumeMesh._BoundaryConnectivity._extract_surface_boundary", "VolumeMesh._BoundaryConnectivity.__init__"]
 TRANSLATED_R5_BORDER = ["extract_boundary_of_volume"]
+TRANSLATED_R6 = ["VolumeMesh._Connectivity.other_face_side", "VolumeMesh._Connectivity._sort_edge_neighborhoods",
+                 "VolumeMesh._Connectivity.edge_to_face", "VolumeMesh._Connectivity.edge_to_cell"]
 
 
 def run():
@@ -1154,4 +1458,7 @@ def run():
     b = T.site("volume.py + border.py: whole bodies of _BoundaryConnectivity._extract_surface_boundary / __init__ and "
                "processing.border.extract_boundary_of_volume (one definition per loop)", site_boundary_bodies)
     if not b["ok"]: _stub("C03B", "Mouette.Generated.C03B", BND_HEADER, str(b["detail"]))
-    return [s, b]
+    w = T.site("volume.py: whole bodies of other_face_side and _sort_edge_neighborhoods (guard, loop over the edges, the two `while True` "
+               "walks with their break, the resets between them, the two sort(key=..) calls)", site_walks)
+    if not w["ok"]: _stub("C03W", "Mouette.Generated.C03W", W_HEADER, str(w["detail"]))
+    return [s, b, w]
